@@ -23,9 +23,10 @@ import (
 func init() { props["C05"] = c05 }
 
 type inst05 struct {
-	I     *ir.Instruction
-	Class string // what this instance is probing
-	Text  string
+	ImmType string // operand type of the immediate position the constant was offered to ("" = unknown)
+	I       *ir.Instruction
+	Class   string // what this instance is probing
+	Text    string
 	// results
 	AsmErr string
 	Bytes  []byte
@@ -393,6 +394,13 @@ func compareDecoded(i *ir.Instruction, d decoded) (problems []string) {
 						opbits = uint(dr.size * 8)
 					}
 				}
+				if opbits == 0 { // no register operand: the width of the memory access the decoder prints
+					for w, pfx := range map[uint]string{8: "byte ptr", 16: " word ptr", 32: "dword ptr"} {
+						if strings.Contains(" "+strings.ToLower(d.text), pfx) && !(w == 16 && (strings.Contains(strings.ToLower(d.text), "dword ptr") || strings.Contains(strings.ToLower(d.text), "qword ptr"))) {
+							opbits = w
+						}
+					}
+				}
 				if opbits >= bits && opbits < 64 && uint64(di)&((1<<opbits)-1) == uint64(want)&((1<<opbits)-1) {
 					ok = true
 				}
@@ -665,6 +673,75 @@ func c05(c *Ctx) {
 		add(x86.PSHUFD(k, reg.X1, reg.X2))
 		add(x86.MOVQ(k, operand.Mem{Base: reg.RBX}))
 	}
+	// integer constants of every width and sign offered wherever an immediate is expected: for each immediate
+	// operand type a few constructors that take it (all of them in the thorough tier); whatever a
+	// constructor accepts must assemble to that very constant
+	{
+		universe := []operand.Op{
+			operand.U8(0), operand.U8(1), operand.U8(3), operand.U8(4), operand.U8(127), operand.U8(128), operand.U8(255),
+			operand.I8(-128), operand.I8(-125), operand.I8(-2), operand.I8(-1), operand.I8(0), operand.I8(1), operand.I8(3), operand.I8(127),
+			operand.U16(3), operand.U16(255), operand.U16(256), operand.U16(65535), operand.I16(-1), operand.I16(-32768), operand.I16(3),
+			operand.U32(3), operand.U32(65536), operand.U32(1<<32 - 1), operand.I32(-1), operand.I32(-(1 << 31)), operand.I32(3),
+			operand.U64(3), operand.U64(1 << 32), operand.U64(1<<64 - 1), operand.I64(-1), operand.I64(-(1 << 63)), operand.I64(3),
+		}
+		perType := map[string]int{}
+		limit := 3
+		if c.Thorough() {
+			limit = 1 << 30
+		}
+		immTypes := map[string]bool{"1": true, "3": true, "IMM2U": true, "IMM8": true, "IMM16": true, "IMM32": true, "IMM64": true}
+		start := int(c.Seed) % len(names)
+		for off := range names {
+			name := names[(start+off)%len(names)]
+			ci := ctors[name]
+			for _, df := range ci.Doc {
+				pos, ty := -1, ""
+				for q, tn := range df[1:] {
+					if immTypes[strings.ToUpper(tn)] {
+						pos, ty = q, strings.ToUpper(tn)
+					}
+				}
+				if pos < 0 || perType[ty] >= limit {
+					continue
+				}
+				var ops []operand.Op
+				okf := true
+				for q, tn := range df[1:] {
+					if q == pos {
+						ops = append(ops, nil)
+						continue
+					}
+					ss := physSamples(strings.ToUpper(tn), rng)
+					if len(ss) == 0 || strings.HasPrefix(strings.ToUpper(tn), "REL") {
+						okf = false
+						break
+					}
+					ops = append(ops, ss[0])
+				}
+				if !okf {
+					continue
+				}
+				perType[ty]++
+				for _, k := range universe {
+					ops[pos] = k
+					bi, berr, _ := x86.VerifBuild(opcIndexOf[ci.Opcode], ci.Suffixes, append([]operand.Op{}, ops...))
+					before := len(insts)
+					add(bi, berr)
+					if len(insts) > before {
+						// the form that matched may be a sibling: if the opcode also has an imm8 form of this shape, a
+						// constant that fits 8 bits is (also) an imm8
+						it := ty
+						for _, dg := range ci.Doc {
+							if len(dg) == len(df) && strings.ToUpper(dg[1+pos]) == "IMM8" {
+								it = "IMM8"
+							}
+						}
+						insts[before].ImmType = it
+					}
+				}
+			}
+		}
+	}
 	// displacements at and beyond the int32 range of the encoding
 	for _, disp := range []int{1<<31 - 1, -(1 << 31), 1 << 31, 1<<32 + 8, -(1 << 31) - 16, 1 << 32} {
 		add(x86.MOVQ(operand.Mem{Base: reg.RAX, Index: reg.RCX, Scale: 8, Disp: disp}, reg.RDX))
@@ -873,6 +950,9 @@ func classifyReject(in *inst05) string {
 				return "u8-over-127:" + in.I.Opcode
 			}
 		case operand.I8:
+			if o < 0 && in.ImmType != "" && in.ImmType != "IMM8" {
+				return "negative-constant-as-" + in.ImmType + ":" + in.I.Opcode
+			}
 			if o < 0 {
 				return "negative-imm8:" + in.I.Opcode
 			}
